@@ -33,6 +33,9 @@ type ccScenario struct {
 	Widths  []int           `json:"widths"` // goroutines per wave
 	Procs   []int           `json:"procs"`  // GOMAXPROCS per wave
 	Seed    int64           `json:"seed"`
+	// Cold: the concurrent waves come first (widest first), in a process that has compiled nothing yet; the
+	// sequential pass follows.  Lazily filled caches shared between parsers are only written on first use.
+	Cold bool `json:"cold"`
 }
 
 type ccSource struct {
@@ -98,16 +101,24 @@ func runConc(in, out string, _ []string) error {
 			w.Emit(tr.Ev{"t": sc.ID, "e": "gen", "g": "compile.text", "k": 0, "input": src, "run": run, "pid": wave, "digest": td})
 			w.Emit(tr.Ev{"t": sc.ID, "e": "gen", "g": "compile.json", "k": 0, "input": src, "run": run, "pid": wave, "digest": jd})
 		}
-		// sequential baseline: the first observation of every source
-		for i, t := range texts {
-			td, jd, pan := ccCompile(t, sc.Sources[i].Files)
-			obs(i, td, jd, pan, 0)
+		// sequential pass: every source once (the baseline, unless the scenario starts cold)
+		sequential := func(wave int) {
+			for i, t := range texts {
+				td, jd, pan := ccCompile(t, sc.Sources[i].Files)
+				obs(i, td, jd, pan, wave)
+			}
+			runtime.GC()
+			w.Emit(tr.Ev{"t": sc.ID, "e": "quiescent", "lexerstates": parser.VerifLexerStateCount(), "wave": wave})
 		}
-		runtime.GC()
-		w.Emit(tr.Ev{"t": sc.ID, "e": "quiescent", "lexerstates": parser.VerifLexerStateCount(), "wave": 0})
+		if !sc.Cold {
+			sequential(0)
+		}
 		rng := rand.New(rand.NewSource(sc.Seed))
 		for wv := 1; wv <= sc.Waves; wv++ {
 			width := sc.Widths[(wv-1)%len(sc.Widths)]
+			if sc.Cold && wv == 1 {
+				width = 64
+			}
 			old := runtime.GOMAXPROCS(sc.Procs[(wv-1)%len(sc.Procs)])
 			type res struct {
 				src          int
@@ -133,6 +144,9 @@ func runConc(in, out string, _ []string) error {
 			}
 			runtime.GC() // let lexer addresses be reused by the next wave
 			w.Emit(tr.Ev{"t": sc.ID, "e": "quiescent", "lexerstates": parser.VerifLexerStateCount(), "wave": wv})
+		}
+		if sc.Cold {
+			sequential(sc.Waves + 1)
 		}
 		return nil
 	})
